@@ -731,3 +731,120 @@ def hilo_exec_task(k, bits, compress):
     res.absorb_stats(x.stats)
     res['functions'] = prof.names()
     return res
+
+
+# ---------------------------------------------------------------------------
+# several instructions whose register operands are a mix of alias constants and literals (C01 / C11):
+# every emitted word must name the registers its own line names
+# ---------------------------------------------------------------------------
+ALIAS_PROGRAMS = [
+    # (lines, per line: (format, [operand names in field order rd, rs1, rs2]))
+    (['add A, @L1@, @L2@', 'addi @L3@, B, 5', 'sub @L4@, @L5@, C', 'sw B, @L6@, 8', 'xor @L7@, @L8@, @L9@', 'add @L1@, A, B'],
+     [('R', ['A', 'L1', 'L2']), ('I', ['L3', 'B']), ('R', ['L4', 'L5', 'C']), ('S', ['B', 'L6']), ('R', ['L7', 'L8', 'L9']), ('R', ['L1', 'A', 'B'])]),
+    (['addi A, x0, 1', 'addi @L1@, B, 2', 'lw @L2@, 4(C)', 'lw C, 8(@L3@)', 'and A, B, C', 'or @L4@, @L5@, A'],
+     [('I', ['A', 0]), ('I', ['L1', 'B']), ('I', ['L2', 'C']), ('I', ['C', 'L3']), ('R', ['A', 'B', 'C']), ('R', ['L4', 'L5', 'A'])]),
+    (['mv A, @L1@', 'mv @L2@, B', 'add @L3@, @L4@, @L5@', 'sltu A, @L6@, C', 'slli @L7@, B, 3'],
+     [('I', ['A', 'L1']), ('I', ['L2', 'B']), ('R', ['L3', 'L4', 'L5']), ('R', ['A', 'L6', 'C']), ('I', ['L7', 'B'])]),
+]
+
+
+def alias_program_task(k, compress):
+    lines, fields = ALIAS_PROGRAMS[k]
+    src = '\n'.join(lines)
+    tag = 'alias-program:%d:%s' % (k, 'c' if compress else 'n')
+    res = TaskResult(tag)
+    pl = Pipeline()
+    prof = common.FuncProfile()
+    x = core.Explorer(timeout_ms=60000, max_paths=3000)
+    n_ok = 0
+    from .pseudo import line_insns
+    from spec import sem
+
+    def fn(p):
+        consts = {n: p.int(n, lo=0, hi=31) for n in 'ABC'}
+        markers = {'L%d' % i: p.int('L%d' % i, lo=0, hi=31) for i in range(1, 10) if '@L%d@' % i in src}
+        p.notes.update(constants=consts, markers=markers)
+        with prof:
+            return pl.assemble(src, consts, compress, markers)
+
+    def val_of(p, name):
+        if name == 0:
+            return z3.BitVecVal(0, 5)
+        v = p.notes['constants'].get(name)
+        if v is None:
+            v = p.notes['markers'][name]
+        return z3.Extract(4, 0, v.bv(8))
+
+    def formula(p, per_line):
+        conds = []
+        for (fmt, names), insns in zip(fields, per_line):
+            if len(insns) != 1 or insns[0][0] is None:
+                conds.append(z3.BoolVal(False))
+                continue
+            n, v = insns[0]
+            w = sem.word_of(v, n)
+            if n == 2:
+                conds.append(sem.legal_c(v.bv(16) if isinstance(v, SymInt) else z3.BitVecVal(v, 16)))
+            rd, rs1, rs2 = z3.Extract(11, 7, w), z3.Extract(19, 15, w), z3.Extract(24, 20, w)
+            if fmt == 'R':
+                conds += [rd == val_of(p, names[0]), rs1 == val_of(p, names[1]), rs2 == val_of(p, names[2])]
+            elif fmt == 'I':
+                conds += [rd == val_of(p, names[0]), rs1 == val_of(p, names[1])]
+            else:       # S: 'sw base, src, imm' in this assembler: rs1 = first operand, rs2 = second
+                conds += [rs1 == val_of(p, names[0]), rs2 == val_of(p, names[1])]
+        return z3.And(*conds)
+
+    for p, kind, val in x.run(fn):
+        if kind == 'limit':
+            res.inconc('%s: %s' % (tag, val))
+            continue
+        model = p.witness()
+        real = pl.real_assemble(src, p.notes['constants'], compress, p.notes['markers'], model)
+        symc = sym_outcome_concrete(kind, val, model)
+        if not outcomes_agree(symc, real):
+            res.inconc('%s: witness replay mismatch %r vs %r' % (tag, symc[:2], real[:2]))
+            continue
+        res['validated'] += 1
+        cc = lambda mdl: {n: core.concrete(v, mdl) for n, v in {**p.notes['constants'], **p.notes['markers']}.items()}
+        if kind != 'ok':
+            path = common.write_replay('C01', tag + '_refused', dict(kind='program', property='C01', source=src, constants=cc(model), compress=compress,
+                                                                       what='refused: %r' % (real[1:3],)))
+            res['violations'].append(dict(harness='alias-program', kind='refused', source=src, inputs=cc(model), compress=compress, real=list(real[1:3]), replay=path))
+            res.oblig(False)
+            continue
+        n_ok += 1
+        out, labels, consts, blobs = val
+        per_line = [line_insns(blobs, i)[0] for i in range(1, len(lines) + 1)]
+        if len(res['samples']) < 1:
+            res['samples'].append(dict(source=lines, witness=cc(model), bytes=real[1].hex()))
+        r, mdl = p.sat(z3.Not(formula(p, per_line)))
+        if r == 'sat':
+            inp = cc(mdl)
+            rr = pl.real_assemble(src, p.notes['constants'], compress, p.notes['markers'], mdl)
+            good = False
+            if rr[0] == 'ok':
+                words = _split_insns(rr[1])
+                good = len(words) == len(lines)
+                if good:
+                    for (fmt, names), (n, v) in zip(fields, words):
+                        w = z3.simplify(sem.word_of(v, n))
+                        w = w.as_long()
+                        rd, rs1, rs2 = (w >> 7) & 31, (w >> 15) & 31, (w >> 20) & 31
+                        exp = [0 if nm == 0 else inp[nm] for nm in names]
+                        got = [rd, rs1, rs2] if fmt == 'R' else ([rd, rs1] if fmt == 'I' else [rs1, rs2])
+                        if got != exp:
+                            good = False
+            if good:
+                res.inconc('%s: counterexample %r did not reproduce' % (tag, inp))
+            else:
+                path = common.write_replay('C01', tag, dict(kind='program', property='C01', source=src, constants=inp, compress=compress,
+                                                            what='an instruction names other registers than its source line: %s' % (rr[1].hex() if rr[0] == 'ok' else rr[1:3],)))
+                res['violations'].append(dict(harness='alias-program', kind='wrong-registers', source=src, inputs=inp, compress=compress, replay=path))
+                res.oblig(False)
+        else:
+            res.oblig(True if r == 'unsat' else None, 'unknown %s' % tag)
+    if n_ok == 0:
+        res['vacuity'].append('%s: no accepting path' % tag)
+    res.absorb_stats(x.stats)
+    res['functions'] = prof.names()
+    return res
